@@ -409,6 +409,47 @@ int main(int argc, char** argv) {
         for (const char* p = elm; *p; ++p) if (!(acc && (unsigned char)*p >= 0x80)) b[nb++] = *p;
         int accept = (na == nb && !memcmp(a, b, na)) || (pre && na >= 4 && na < nb && !memcmp(a, b, na));
         if ((r == 0) != accept) { printf("REPRODUCED: comparer returned %d, the acceptance rule says %s\n", r, accept ? "accept" : "reject"); fails++; }
+    } else if (!strcmp(cmd, "int_battery") && argc == 4) {
+        /* int_battery <n> <seed>: native REFUTATION SEARCH on the internal string functions (tokeniser, lazy NFKD, the four
+           comparers) with pseudo-random strings over small alphabets, against the reference tokeniser / acceptance rule;
+           used like api_battery when a contract unit of one of these functions is undecided.  A pass proves nothing. */
+        unsigned long n_ = num(argv[2]); uint64_t x = num(argv[3]) * 6364136223846793005ULL + 1442695040888963407ULL;
+        #define RNDI() (x = x * 6364136223846793005ULL + 1442695040888963407ULL, (unsigned)(x >> 33))
+        for (unsigned long it = 0; it < n_ && fails < 3; ++it) {
+            /* tokeniser */
+            polyseed_str buf; memset(buf, 0, sizeof buf);
+            unsigned len = RNDI() % 60; static const char al[] = "ab  ";
+            for (unsigned i = 0; i < len; ++i) buf[i] = al[RNDI() % 4];
+            polyseed_str orig; memcpy(orig, buf, sizeof buf);
+            polyseed_phrase words; int r = str_split(buf, words);
+            int cnt = 0; size_t starts[18]; size_t L = strlen(orig);
+            if (L > 0) { size_t st = 0; for (size_t i = 0; i <= L; ++i) if (i == L || orig[i] == ' ') { if (!(i == L && st == L)) { if (cnt < 17) { starts[cnt] = st; cnt++; } } st = i + 1; } }
+            int bad = r != cnt; for (int i = 0; !bad && i < r && i < 16; ++i) bad = words[i] != buf + starts[i];
+            if (bad) { printf("REPRODUCED: str_split returns %d tokens (reference %d) or different boundaries on \"%s\"\n", r, cnt, orig); fails++; }
+            /* lazy NFKD */
+            static char in[700]; unsigned ln = RNDI() % 40; static const unsigned char ab[] = { 'a', 'z', ' ', 0xC3, 0xA9, 0xE3 };
+            for (unsigned i = 0; i < ln; ++i) in[i] = (char)ab[(RNDI() % 16) < 13 ? RNDI() % 3 : 3 + RNDI() % 3];
+            in[ln] = 0;
+            polyseed_str norm; unsigned before = d_nfkd_calls; size_t rr = utf8_nfkd_lazy(in, norm);
+            int ascii = 1; for (unsigned i = 0; i < ln; ++i) if ((unsigned char)in[i] >= 0x80) ascii = 0;
+            if (ascii ? (d_nfkd_calls != before || rr != ln || memcmp(norm, in, ln + 1)) : (d_nfkd_calls != before + 1 || d_nfkd_arg != in)) {
+                printf("REPRODUCED: utf8_nfkd_lazy: normaliser called %u time(s) for a %s string of %u bytes\n", d_nfkd_calls - before, ascii ? "pure ASCII" : "non-ASCII", ln); fails++; }
+            /* comparers */
+            char key[24] = {0}, elm[24] = {0}; static const unsigned char ac[] = { 'a', 'b', 'c', 0xCC, 0x81 };
+            unsigned lk = RNDI() % 9, le = RNDI() % 9;
+            for (unsigned i = 0; i < le; ++i) elm[i] = (char)ac[RNDI() % 5];
+            if (RNDI() & 1) { for (unsigned i = 0; i < lk; ++i) key[i] = (char)ac[RNDI() % 5]; } else { memcpy(key, elm, lk < le ? lk : le); }
+            for (int kind = 0; kind < 4; ++kind) {
+                int acc = kind >= 2, pre = kind & 1; const char* pk = key; const char* pe = elm;
+                int c = pre ? (acc ? compare_prefix_noaccent_wrap(&pk, &pe) : compare_prefix_wrap(&pk, &pe)) : (acc ? compare_str_noaccent_wrap(&pk, &pe) : compare_str_wrap(&pk, &pe));
+                char a[24], b[24]; int na = 0, nb = 0;
+                for (const char* p = key; *p; ++p) if (!(acc && (unsigned char)*p >= 0x80)) a[na++] = *p;
+                for (const char* p = elm; *p; ++p) if (!(acc && (unsigned char)*p >= 0x80)) b[nb++] = *p;
+                int accept = (na == nb && !memcmp(a, b, na)) || (pre && na >= 4 && na < nb && !memcmp(a, b, na));
+                if ((c == 0) != accept) { printf("REPRODUCED: comparer %d returns %d, the acceptance rule says %s (key/elm lengths %u/%u)\n", kind, c, accept ? "accept" : "reject", lk, le); fails++; }
+            }
+        }
+        printf("%lu random cases tried per function\n", n_);
 #endif
     } else if (!strcmp(cmd, "api_battery") && argc == 4) {
         /* api_battery <n> <seed>: native REFUTATION SEARCH through the public API only, used when a contract unit of an API
